@@ -63,6 +63,39 @@ func genC09(r *rngT, n int, tier string) {
 		execOp(fmt.Sprintf("swrite %s %d %d %d %d %s %s", dn, ver, 1+r.Intn(255), r.Intn(3)*r.Intn(128), r.Intn(256), k, strings.Join(its, ";")))
 		stat("c09-history")
 	}
+	// the same, originated by a node (one channel): only what reaches the wire is observable
+	for i := 0; i < rounds; i++ {
+		dn := []string{"common", "user"}[r.Intn(2)]
+		ver := 1 + r.Intn(2)
+		k := "-"
+		if ver == 2 && r.bool() {
+			k = hx(key)
+		}
+		var its []string
+		l := 5 + r.Intn(40)
+		for j := 0; j < l; j++ {
+			var m message.Message
+			switch {
+			case j == l-1: // the last one must reach the wire
+				pm := pickMsg(r, dn)
+				for pm.GetID() > 255 {
+					pm = pickMsg(r, dn)
+				}
+				m = randValue(r, pm)
+			case r.Intn(8) == 0:
+				m = &message.MessageRaw{ID: 99999, Payload: []byte{1}}
+			case r.Intn(8) == 0:
+				pm := pickMsg(r, dn)
+				m = &message.MessageRaw{ID: pm.GetID(), Payload: r.payload(1 + r.Intn(20))}
+			default:
+				m = randValue(r, pickMsg(r, dn))
+			}
+			its = append(its, fmt.Sprintf("%s@5000000", encMsg(m)))
+		}
+		comp := r.Intn(3) * r.Intn(128)
+		execOp(fmt.Sprintf("nwrite %s %d %d %d %d %s %s", dn, ver, 2+r.Intn(253), comp, r.Intn(256), k, strings.Join(its, ";")))
+		stat("c09-node-history")
+	}
 	// no dialect at all
 	execOp(fmt.Sprintf("swrite - 2 1 1 0 - %s@0;%s@1", encMsg(&message.MessageRaw{ID: 0, Payload: []byte{1}}), encMsg(&message.MessageRaw{ID: 0, Payload: []byte{1}})))
 }
